@@ -96,6 +96,10 @@ type Call struct {
 	ambiguous error
 }
 
+// AppliedButFailed reports an ambiguous outcome: the server committed the write, the caller got an error (observers that
+// follow the API object must treat the call as applied).
+func (c Call) AppliedButFailed() bool { return c.ambiguous != nil }
+
 // Sig identifies a call independently of its position in the execution.
 func (c Call) Sig() string { return c.Verb + ":" + c.Kind + ":" + c.Name + "{" + c.Sel + "}" }
 
